@@ -197,3 +197,65 @@ func (e *Engine) immutableFieldScan(prop string) []*Obligation {
 	}
 	return obs
 }
+
+// determinismScan: the functions of one package compute their result from their arguments and
+// package-level data that only init writes: no iteration over a map (order varies between runs), no
+// goroutine, channel or select, and calls outside the repository only into the listed pure packages.
+// Together with the global frame obligations (no writes to package-level state) this makes every
+// call with the same argument return the same result.
+func (e *Engine) determinismScan(prop, pkgSuffix string, purePkgs []string) []*Obligation {
+	pure := map[string]bool{}
+	for _, p := range purePkgs {
+		pure[p] = true
+	}
+	var obs []*Obligation
+	for _, fn := range e.sortedFuncs() {
+		if fn.Pkg == nil || !strings.HasSuffix(fn.Pkg.Pkg.Path(), pkgSuffix) || len(fn.Blocks) == 0 || isInitFn(fn) {
+			continue
+		}
+		name := e.fnName(fn)
+		var bad []string
+		for _, b := range fn.Blocks {
+			for _, ins := range b.Instrs {
+				switch t := ins.(type) {
+				case *ssa.Range:
+					if _, ok := t.X.Type().Underlying().(*types.Map); ok {
+						bad = append(bad, "iteration over a map at "+e.posOf(ins))
+					}
+				case *ssa.Go, *ssa.Select, *ssa.Send, *ssa.MakeChan:
+					bad = append(bad, fmt.Sprintf("%T at %s", ins, e.posOf(ins)))
+				case *ssa.UnOp:
+					if t.Op.String() == "<-" {
+						bad = append(bad, "channel receive at "+e.posOf(ins))
+					}
+				case *ssa.Store:
+					if g := globalRoot(t.Addr, 0); g != nil && e.repoGlobal(g) {
+						bad = append(bad, fmt.Sprintf("store to %s at %s", e.shortName(g.String()), e.posOf(ins)))
+					}
+				case *ssa.MapUpdate:
+					if g := globalRoot(t.Map, 0); g != nil && e.repoGlobal(g) {
+						bad = append(bad, fmt.Sprintf("map update of %s at %s", e.shortName(g.String()), e.posOf(ins)))
+					}
+				case ssa.CallInstruction:
+					cc := t.Common()
+					callee := cc.StaticCallee()
+					if callee == nil || e.isRepoFn(callee) || callee.Pkg == nil {
+						continue
+					}
+					if p := callee.Pkg.Pkg.Path(); !pure[p] {
+						bad = append(bad, fmt.Sprintf("call into package %s (%s) at %s", p, callee.Name(), e.posOf(ins)))
+					}
+				}
+			}
+		}
+		ob := &Obligation{Name: name + ".deterministic", Kind: "frame", Func: name, Props: []string{prop}, Solver: "frame-scan", Status: "discharged",
+			Clause: "no map iteration, goroutine or channel operation, no write to package-level state, external calls only into " + strings.Join(purePkgs, ", ")}
+		if len(bad) > 0 {
+			ob.Status = "refuted"
+			ob.Output = strings.Join(bad, "; ")
+			ob.Clause += " -- violated: " + ob.Output
+		}
+		obs = append(obs, ob)
+	}
+	return obs
+}
